@@ -113,9 +113,15 @@ def run(ctx):
             continue
         obj = getattr(Q, name)
         if name not in ref:
-            ctx.ob(f"value:{name}", "inconclusive", "no reference entry for this exported constant")
-            continue
-        spec = ref[name]
+            # a constant the reference table was not written for: a well-known physical constant is still recognised by its name
+            wk = table.get("well_known", {})
+            hit = next((k for k, v in wk.items() if name == k or name in v.get("aliases", [])), None)
+            if hit is None:
+                ctx.ob(f"value:{name}", "inconclusive", "no reference entry for this exported constant")
+                continue
+            spec = wk[hit]
+        else:
+            spec = ref[name]
         if not isinstance(obj, Quantity):
             ctx.violation(f"C20:dim:{name}", f"{name} is not a Quantity", rep("dim", name, spec))
             continue
